@@ -894,60 +894,7 @@ func c20MixRound(run *common.Run, ch *c20Child, round int, scenario int) (int, s
 	return kinds, ""
 }
 
-// c20RaceReports scans the race-detector logs written by the children (GORACE log_path set by ./check) and
-// reports blocks that have a frame in the emulator packages.
+// c20RaceReports scans the race-detector logs written by the children (GORACE log_path set by ./check).
 func c20RaceReports(run *common.Run) {
-	if run.Replay != nil {
-		return
-	}
-	blocks, total := raceBlocks(filepath.Join(common.Root(), ".build"), "race-C20B.", "github.com/fullstorydev/emulators/bigtable")
-	run.Count("race_report_blocks_total", int64(total))
-	run.Count("race_report_signatures_in_emulator", int64(len(blocks)))
-	i := 0
-	for sig, text := range blocks {
-		run.Violation("race", i, "data race reported by the race detector in emulator code: "+sig, map[string]any{"report": text})
-		i++
-	}
-}
-
-// raceBlocks parses race logs: returns deduplicated blocks (by the pair of first emulator frames) that mention pkg.
-func raceBlocks(dir, prefix, pkg string) (map[string]string, int) {
-	out := map[string]string{}
-	total := 0
-	files, _ := filepath.Glob(filepath.Join(dir, prefix+"*"))
-	for _, f := range files {
-		buf, err := os.ReadFile(f)
-		if err != nil {
-			continue
-		}
-		for _, blk := range strings.Split(string(buf), "==================") {
-			if !strings.Contains(blk, "WARNING: DATA RACE") {
-				continue
-			}
-			total++
-			if !strings.Contains(blk, pkg) {
-				continue
-			}
-			var frames []string
-			for _, l := range strings.Split(blk, "\n") {
-				l = strings.TrimSpace(l)
-				if strings.HasPrefix(l, pkg) || strings.Contains(l, pkg+"/") && !strings.HasPrefix(l, "/") {
-					if i := strings.Index(l, "("); i > 0 {
-						l = l[:i]
-					}
-					if len(frames) == 0 || frames[len(frames)-1] != l {
-						frames = append(frames, l)
-					}
-				}
-			}
-			sig := strings.Join(frames, " | ")
-			if len(frames) > 4 {
-				sig = strings.Join(frames[:4], " | ")
-			}
-			if _, ok := out[sig]; !ok {
-				out[sig] = truncStr(blk, 6000)
-			}
-		}
-	}
-	return out, total
+	run.ScanRaceLogs("github.com/fullstorydev/emulators/bigtable")
 }
